@@ -55,7 +55,7 @@ Proof.
 Qed.
 
 Lemma node_ins_ok h' id (kids : list kid) r (e : entry) lo hi (res : ires) :
-  0 <= ifree V kids -> kids_bounded V (bounded h') lo hi kids r ->
+  0 <= ifree V kids -> kids_bounded V (bounded h') lo hi kids r -> lo_ok lo (fst e) -> hi_ok hi (fst e) ->
   ires_ok h' (lo_at V lo kids (cidx V (fst e) kids)) (hi_at V hi kids (cidx V (fst e) kids))
           (child_at V kids r (cidx V (fst e) kids)) e res ->
   ires_ok (S h') lo hi (Node id kids r) e
@@ -67,7 +67,7 @@ Lemma node_ins_ok h' id (kids : list kid) r (e : entry) lo hi (res : ires) :
      | IErr er0 => IErr er0
      end).
 Proof.
-  intros Hfree HB Hres. set (i := cidx V (fst e) kids) in *.
+  intros Hfree HB Hlok Hhik Hres. set (i := cidx V (fst e) kids) in *.
   assert (Hi : (i <= length kids)%nat) by apply cidx_le.
   destruct (kabs_decomp V h' kids r i) as (X & HX1 & HX2).
   destruct res as [c np' | L s R np' | np' | np' | er]; cbn [BTreeLeafIns.ires_ok] in Hres |- *.
@@ -117,7 +117,10 @@ Proof.
       rewrite H6, abs_node. exact Habs.
   - rewrite abs_node. unfold BTreeOrder.keys in *. apply in_map_iff in Hres as (x & Hx & Hin). apply in_map_iff. exists x. split; [exact Hx|].
     eapply Permutation_in; [apply Permutation_sym; exact HX1|]. apply in_or_app. left. exact Hin.
-  - destruct Hres as (c & Hc & Hbig). exists c. split; [|exact Hbig]. destruct Hc as [<- | Hc]; [left; reflexivity|]. right.
+  - destruct Hres as (Habsent & c & Hc & Hbig). split.
+    { intros Hin. apply Habsent. unfold BTreeOrder.keys in *. apply in_map_iff in Hin as (x & Hx & Hxin). apply in_map_iff. exists x.
+      split; [exact Hx|]. rewrite abs_node in Hxin. eapply kabs_key_in_child; eassumption. }
+    exists c. split; [|exact Hbig]. destruct Hc as [<- | Hc]; [left; reflexivity|]. right.
     rewrite abs_node. eapply Permutation_in; [apply Permutation_sym; exact HX1|]. apply in_or_app. left. exact Hc.
   - exact Hres.
 Qed.
